@@ -21,6 +21,7 @@ func (f *Frame) specEnv(st *State, phiVal func(*ssa.Phi) Val, phis []*ssa.Phi) *
 	}
 	for i, p := range f.fn.Params {
 		env.vars[p.Name()] = f.params[i]
+		env.vars["entry_"+p.Name()] = f.params[i] // the value at entry, also where the name itself is loop-carried
 	}
 	// captured variables of a closure, by name
 	for _, fv := range f.fn.FreeVars {
@@ -53,7 +54,14 @@ func (f *Frame) specEnv(st *State, phiVal func(*ssa.Phi) Val, phis []*ssa.Phi) *
 	// loop-carried locals by source name
 	for _, p := range phis {
 		if p.Comment != "" && phiVal != nil {
-			if _, shadow := env.vars[p.Comment]; !shadow {
+			_, shadow := env.vars[p.Comment]
+			if shadow && f.paramNames()[p.Comment] {
+				// a parameter that the loop reassigns: inside loop clauses its name means the current
+				// value (old(name) is the value at entry), as in Gobra
+				vc.note("loop clause of %s: parameter %s is loop-carried, its name denotes the current value", f.fn, p.Comment)
+				shadow = false
+			}
+			if !shadow {
 				env.vars[p.Comment] = phiVal(p)
 			}
 		}
